@@ -17,103 +17,11 @@ func init() {
 
 // ---------------------------------------------------------------- stub relation manager
 
-type verifStubTable struct {
-	cols []string
-	rows [][]interface{}
-}
 
-// verifRM serves fixed tables; every Fetch returns fresh rows and fields (the
-// engine rewrites both in place).
-type verifRM struct {
-	tables  map[string]*verifStubTable
-	fetches int
-}
 
-func (m *verifRM) StartTxn() {}
-func (m *verifRM) EndTxn()   {}
-func (m *verifRM) CreateTable(r *storage.Relation, tableName string) error {
-	return nil
-}
-func (m *verifRM) MarkDeleted(tableName string, rowID uint32) (storage.WALBatch, error) {
-	return nil, nil
-}
-func (m *verifRM) Update(tableName string, rowID uint32, cols []string, updateSrc []interface{}) (storage.WALBatch, error) {
-	return nil, nil
-}
-func (m *verifRM) Insert(tableName string, cols []string, vals []interface{}) (storage.WALBatch, error) {
-	return nil, nil
-}
-func (m *verifRM) FlushWALBatch(batch storage.WALBatch) error { return nil }
-func (m *verifRM) Fetch(tableName string) ([]*storage.Row, []*storage.Field, error) {
-	m.fetches++
-	t, ok := m.tables[tableName]
-	if !ok {
-		return nil, nil, storage.ErrTableNotExist
-	}
-	var fields []*storage.Field
-	for _, c := range t.cols {
-		fields = append(fields, &storage.Field{Column: c})
-	}
-	var rows []*storage.Row
-	for i, r := range t.rows {
-		// value by value, like storage.scanRelation: the slices get the same spare capacity
-		row := &storage.Row{RowID: uint32(i + 1)}
-		for _, v := range r {
-			row.Vals = append(row.Vals, v)
-		}
-		rows = append(rows, row)
-	}
-	return rows, fields, nil
-}
 
 // ---------------------------------------------------------------- reference meaning
 
-// verifCmpVals: reference comparison of two non-NULL values of the same type.
-func verifCmpVals(op sql.TokenType, a, b interface{}) bool {
-	switch x := a.(type) {
-	case int64:
-		y := b.(int64)
-		switch op {
-		case sql.EQ:
-			return x == y
-		case sql.NEQ:
-			return x != y
-		case sql.LT:
-			return x < y
-		case sql.LTE:
-			return x <= y
-		case sql.GT:
-			return x > y
-		case sql.GTE:
-			return x >= y
-		}
-	case string:
-		y := b.(string)
-		switch op {
-		case sql.EQ:
-			return x == y
-		case sql.NEQ:
-			return x != y
-		case sql.LT:
-			return x < y
-		case sql.LTE:
-			return x <= y
-		case sql.GT:
-			return x > y
-		case sql.GTE:
-			return x >= y
-		}
-	case bool:
-		y := b.(bool)
-		switch op {
-		case sql.EQ:
-			return x == y
-		case sql.NEQ:
-			return x != y
-		}
-	}
-	panic("verifCmpVals: ill-typed reference comparison")
-}
 
 // a reference predicate: operands are column indexes (>=0) or literals
 type verifPred struct {
@@ -144,9 +52,7 @@ func (p verifPred) ast(cols []string) sql.Predicate {
 	return sql.Predicate{ComparisonPredicate: sql.ComparisonPredicate{LHS: l, CompOp: p.op, RHS: r}}
 }
 
-var verifC05Cols = []string{"a", "b", "s", "f"}
 
-var verifAllOps = []int{int(sql.EQ), int(sql.NEQ), int(sql.LT), int(sql.LTE), int(sql.GT), int(sql.GTE)}
 
 // verifGenPred: one well-typed predicate over table t(a int, b bigint, s varchar, f boolean).
 // form: 0 a op int   1 int op b   2 a op b   3 s op 'x'   4 f =/!= bool   5 'x' op s
@@ -253,39 +159,7 @@ var verifSelForms = [][]verifSelItem{
 	{{3, ""}},
 }
 
-// verifSortLE: row x sorts at or before row y under keys (column index in the result, descending flag).
-func verifSortLE(x, y []interface{}, keys []int, desc []bool) bool {
-	// lexicographic: x <= y iff for the first key where they differ, x is on the right side
-	le := true // all keys equal so far => equal => <=
-	for i := len(keys) - 1; i >= 0; i-- {
-		a, b := x[keys[i]], y[keys[i]]
-		var lt, eq bool
-		switch av := a.(type) {
-		case int64:
-			lt, eq = av < b.(int64), av == b.(int64)
-		case string:
-			lt, eq = av < b.(string), av == b.(string)
-		case bool:
-			lt, eq = verifAnd(!av, b.(bool)), av == b.(bool)
-		}
-		if desc[i] {
-			lt = verifAnd(!lt, !eq)
-		}
-		le = verifOr(lt, verifAnd(eq, le))
-	}
-	return le
-}
 
-func verifRowEq(x, y []interface{}) bool {
-	if len(x) != len(y) {
-		return false
-	}
-	eq := true
-	for i := range x {
-		eq = verifAnd(eq, verifSame(x[i], y[i]))
-	}
-	return eq
-}
 
 // H05: R symbolic rows of t(a,b,s,f); WHERE tree, select list, ORDER BY, LIMIT/OFFSET;
 // result compared with the reference meaning.
